@@ -438,8 +438,10 @@ def below_events(v, sid, desc, prof, path, kind, node):
             try:
                 m = parse_message("\r".join([head] + body), message_profile=prof, validation_level=lvl)
             except Exception as ex:
-                if type(ex).__name__ != "InvalidName" or "_" not in sid:
+                if type(ex).__name__ != "InvalidName":
                     raise
+                if "_" not in sid:
+                    continue        # (versions whose MSH-9 has two components only: the route does not apply, as in _build_parent)
                 m = parse_message("\r".join([head.replace("^" + sid + "|", "|")] + body), message_profile=prof, validation_level=lvl)
             el = m
             for n in structural:
